@@ -37,7 +37,9 @@ def gen_history(rng, stats, names=True, max_adds=8):
     for _ in range(rng.randint(0, 2)):
         if tail:
             head.insert(rng.randint(1, len(head)), tail.pop())
-    used_names = []
+    from ombott.router.radirouter import RadiRouter
+    shadow = RadiRouter()          # only to know which rules are accepted (paths are derived from those)
+    live = []
     for what in head + tail:
         if what == 'A':
             if rng.random() < .08:
@@ -46,6 +48,11 @@ def gen_history(rng, stats, names=True, max_adds=8):
                 rule, ast = G.gen_rule(rng, asts)
             if ast is not None:
                 asts.append(ast)
+                try:
+                    shadow.add(rule, 'X%d' % len(ops), len)
+                    live.append(ast)
+                except Exception:
+                    pass
             name = None
             if names and rng.random() < .12:
                 name = rng.choice(['n1', 'n2', ''])
@@ -53,7 +60,7 @@ def gen_history(rng, stats, names=True, max_adds=8):
             if rule in ('/u/:a', '/n/<x:int>'):
                 asts.append([('lit', rule[1:3]), ('w', 'q', 'int' if 'int' in rule else None, None, None)])
         else:
-            p = G.gen_path(rng, asts)
+            p = G.gen_path(rng, live if (live and rng.random() < .85) else asts)
             k = rng.random()
             if k < .55:
                 ops.append(['R', p, rng.choice(RES_METHODS)])
@@ -92,7 +99,7 @@ class C01(Check):
         self.stats = {}
 
     def budget(self, tier, escalated):
-        n = 700 if tier == 'quick' else 20000
+        n = 1200 if tier == "quick" else 60000
         return n * (3 if escalated and tier == 'quick' else 1)
 
     def nontrivial(self, sample):
@@ -187,12 +194,66 @@ class C01(Check):
                     bad.append(('kwargs-values', f'handler kwargs {kw!r}, filters give {exp!r}: {ctx}'))
                 if op[0] == 'W':
                     status, allow, calls = run.wsgi_raw(op[1], op[2])
-                    if status != 200 or len(calls) != 1 or calls[0][2] != exp:
-                        bad.append(('wsgi-kwargs', f'through WSGI: status {status} calls {calls!r}, expected kwargs {exp!r}: {ctx}'))
+                    if status == 404:
+                        bad.append(('false-404', f'through WSGI: rule {pat!r} matches, answered 404: {ctx}'))
+                    elif status == 200 and (len(calls) != 1 or calls[0][2] != exp):
+                        # (which handler / 405 is C02's business)
+                        bad.append(('wsgi-kwargs', f'through WSGI: calls {calls!r}, expected kwargs {exp!r}: {ctx}'))
         return bad
+
+    UNIVERSE = ['/a', '/a/b', '/a/:x', '/a/<x:int>', '/:x', '/:x/a', '/a<x:int>', '/<p:path>', '/a/<x:re:a+>',
+                '/:x/:y', '/a/:x/b', '/<x:int>/a', '/a/1', '/<x>-<y>']
+    SCOPE_ALPHA = ['a', '/', '1', '-', '\r']
+
+    def exhaustive(self):
+        """thorough tier: every rule set of <= 3 rules of UNIVERSE x every path of length <= 5 over
+        SCOPE_ALPHA, real router against the plain rule-by-rule matcher (validation of the code
+        against the specification, not of the model)"""
+        import itertools
+        from ombott.router.radirouter import RadiRouter, Route
+        paths = ['']
+        for L in range(1, 6):
+            paths += [''.join(t) for t in itertools.product(self.SCOPE_ALPHA, repeat=L)]
+        findings, evals = [], 0
+        for k in (1, 2, 3):
+            for combo in itertools.combinations(self.UNIVERSE, k):
+                R = RadiRouter()
+                rules, names = {}, {}
+                for i, rule in enumerate(combo):
+                    try:
+                        R.add(rule, 'GET', (lambda i: (lambda **kw: i))(i))
+                    except Exception:
+                        continue
+                    pat, params, filters, _, _ = Route.parse_rule(rule)
+                    rules[pat], names[pat] = filters, params
+                for path in paths:
+                    evals += 1
+                    spec = G.spec_resolve(rules, path.strip('/'))
+                    ep, err = R.resolve(path, ['GET'])
+                    bad = None
+                    if spec[0] == 'none':
+                        if ep:
+                            bad = ('false-match', 'no rule matches, router answered a handler')
+                    elif spec[0] == 'one':
+                        exp = {n: v for n, v in zip(names[spec[1]], spec[2]) if not n.startswith('anon-')}
+                        if not ep:
+                            bad = ('false-404', f'rule {spec[1]!r} matches, router answered 404')
+                        elif ep[0].route.pattern != spec[1]:
+                            bad = ('wrong-route', f'selected {ep[0].route.pattern!r}, rule-by-rule selects {spec[1]!r}')
+                        elif ep[1] != exp:
+                            bad = ('kwargs-values', f'kwargs {ep[1]!r}, filters give {exp!r}')
+                    if bad:
+                        ops = [['A', r, ['GET'], None, False] for r in combo] + [['R', path, ['GET']]]
+                        findings.append(Finding(f'C01:{bad[0]}', f'{bad[1]}: rules={list(combo)} path={path!r}', dict(ops=ops)))
+                        if len(findings) > 50:
+                            return evals, findings
+        self.stats['exhaustive-scope-lookups'] = evals
+        return evals, findings
 
     def search(self, rng, n, seeds):
         findings, evals = [], 0
+        if n >= 20000:
+            evals, findings = self.exhaustive()
         cases = [s['ops'] for s in seeds if 'ops' in s]
         # the two historical defects and their neighbourhood, always
         cases.append([['A', '/n/<x:int>', ['GET'], None, False], ['R', '/n/\r', ['GET', 'ANY']], ['W', 'GET', '/n/\r']])
